@@ -48,17 +48,145 @@ pub fn build_java(dir: &std::path::Path, descs: Vec<RemoteDesc>) -> (Vec<RemoteD
     (ok, dropped)
 }
 
+/// The declarations of the canonical test file that the repository's own Java CI keeps
+/// (tests/run_java_generator_tests.sh), as a model description.
+pub fn canonical_java_subset(big: bool) -> Option<pdlv_core::model::Desc> {
+    use pdlv_core::model::*;
+    let text = std::fs::read_to_string("/repo/pdl-compiler/tests/canonical/le_test_file.pdl").ok()?;
+    let text = if big { text.replace("little_endian_packets", "big_endian_packets") } else { text };
+    let mut d = desc_of_text("canonical.pdl", &text).ok()?;
+    let excluded = |id: &str| ["Custom", "Checksum", "_Body_", "Padded", "VariableElementSize", "Optional", "AliasedChild", "Struct_"].iter().any(|k| id.contains(k));
+    fn refs(fields: &[Field], out: &mut Vec<String>) {
+        for f in fields {
+            match &f.d {
+                FieldDesc::Typedef { ty, .. } | FieldDesc::FixedEnum { ty, .. } => out.push(ty.clone()),
+                FieldDesc::Array { elem: Elem::Ty(t), .. } => out.push(t.clone()),
+                FieldDesc::Group { id, .. } => out.push(id.clone()),
+                FieldDesc::Checksum { .. } => out.push("<checksum>".into()),
+                _ => {}
+            }
+        }
+    }
+    d.decls.retain(|x| !matches!(x, Decl::Custom { .. } | Decl::Checksum { .. }) && !excluded(x.id()));
+    // drop declarations that refer to something that is gone (fixpoint)
+    loop {
+        let ids: Vec<String> = d.decls.iter().map(|x| x.id().to_string()).collect();
+        let before = d.decls.len();
+        d.decls.retain(|x| match x {
+            Decl::Record { parent, fields, .. } => {
+                let mut r = vec![];
+                refs(fields, &mut r);
+                if let Some(p) = parent {
+                    r.push(p.clone());
+                }
+                r.iter().all(|t| ids.contains(t))
+            }
+            Decl::Group { fields, .. } => {
+                let mut r = vec![];
+                refs(fields, &mut r);
+                r.iter().all(|t| ids.contains(t))
+            }
+            _ => true,
+        });
+        if d.decls.len() == before {
+            break;
+        }
+    }
+    Some(d)
+}
+
+/// A variant of `d`: inside every bit-field run of plain scalar fields the widths are redistributed
+/// (total preserved), scalar array element widths move among 8/16/32/64.
+pub fn java_variant(d: &pdlv_core::model::Desc, s: &mut pdlv_core::choice::Src) -> pdlv_core::model::Desc {
+    use pdlv_core::model::*;
+    let mut d = d.clone();
+    // fields referenced by constraints or conditions keep their width
+    let mut pinned: Vec<String> = vec![];
+    for decl in &d.decls {
+        if let Decl::Record { cons, fields, .. } = decl {
+            pinned.extend(cons.iter().map(|c| c.id.clone()));
+            for f in fields {
+                if let FieldDesc::Group { cons, .. } = &f.d {
+                    pinned.extend(cons.iter().map(|c| c.id.clone()));
+                }
+                if let Some(c) = &f.cond {
+                    pinned.push(c.0.clone());
+                }
+            }
+        }
+    }
+    for decl in d.decls.iter_mut() {
+        let Decl::Record { fields, .. } = decl else { continue };
+        // runs of consecutive plain scalars
+        let mut i = 0;
+        while i < fields.len() {
+            let mut j = i;
+            while j < fields.len() && matches!(&fields[j].d, FieldDesc::Scalar { id, .. } if !pinned.contains(id)) && fields[j].cond.is_none() {
+                j += 1;
+            }
+            if j - i >= 2 && s.below(2) == 0 {
+                let total: u32 = fields[i..j].iter().map(|f| if let FieldDesc::Scalar { w, .. } = &f.d { *w } else { 0 }).sum();
+                let n = (j - i) as u32;
+                if total >= 2 * n && total <= 64 {
+                    // every field keeps at least 2 bits (1-bit fields become booleans in Java: left as they are)
+                    let mut rest = total - 2 * n;
+                    for k in i..j {
+                        let extra = if k + 1 == j { rest } else { s.below(rest as usize + 1) as u32 };
+                        rest -= extra;
+                        if let FieldDesc::Scalar { w, .. } = &mut fields[k].d {
+                            *w = 2 + extra;
+                        }
+                    }
+                }
+            }
+            i = j.max(i + 1);
+        }
+        for f in fields.iter_mut() {
+            if let FieldDesc::Array { elem: Elem::Bits(w), .. } = &mut f.d {
+                if [8, 16, 32, 64].contains(w) && s.below(3) == 0 {
+                    *w = *s.pick(&[8u32, 16, 32, 64]);
+                }
+            }
+        }
+    }
+    d
+}
+
 pub fn run(tier: &str, seed: u64) -> i32 {
     let t0 = std::time::Instant::now();
     let (kf, _) = load_kf();
     let thorough = tier == "thorough";
     std::panic::set_hook(Box::new(|_| {}));
-    let (descs, mut dropped) = crate::c13::draw(seed, tier, &Profile::java(), "C19", if thorough { 96 } else { 16 });
+    // Domain: the canonical declarations the repository's Java CI keeps, in both endiannesses, plus
+    // variants with redistributed bit-field widths and other array element widths (DESIGN section 10
+    // fallback: the Java generator fails on most shapes outside this family, see section 7).
+    let mut descs: Vec<RemoteDesc> = vec![];
+    let mut dropped = 0usize;
+    let nvar = if thorough { 10 } else { 2 };
+    for big in [false, true] {
+        let Some(base) = canonical_java_subset(big) else {
+            eprintln!("infrastructure: canonical test file not readable");
+            return 2;
+        };
+        let mut variants = vec![base.clone()];
+        for st in pdlv_core::choice::draw_streams(seed, &format!("C19/variants/{tier}/{big}"), nvar, 400) {
+            let mut s = pdlv_core::choice::Src::new(&st);
+            variants.push(java_variant(&base, &mut s));
+        }
+        for v in variants {
+            let text = pdlv_core::print::plain(&v);
+            match parse("j.pdl", &text).ok().and_then(|(f, _)| guarded(|| analyze(&f)).ok().and_then(|r| r.ok())) {
+                Some(_) => descs.push(RemoteDesc { idx: descs.len(), desc: v, text, strata: vec![] }),
+                None => dropped += 1,
+            }
+        }
+    }
+    let _ = Profile::java();
     let dir = work_dir().join(format!("java-{tier}-{seed}"));
     let (descs, d2) = build_java(&dir, descs);
     dropped += d2;
     let cp = dir.join("out");
-    let partial = match run_remote("C19", Backend::Java, seed, thorough, &descs, &kf, 4, &|_w| JavaTarget::new(&cp)) {
+    let partial = match run_remote("C19", Backend::Java, seed, if thorough { (1500, 500) } else { (120, 40) }, &descs, &kf, 4, &|_w| JavaTarget::new(&cp)) {
         Ok(p) => p,
         Err(e) => {
             eprintln!("infrastructure: {}", e.0);
